@@ -20,6 +20,8 @@ Lemma no_single_tup : forall k c ps, no_single (TTup k c ps) <-> Forall no_singl
 Proof. intros; simpl. apply no_single_all. Qed.
 Lemma no_single_call : forall k c ps, no_single (TCall k c ps) <-> Forall no_single ps.
 Proof. intros; simpl. apply no_single_all. Qed.
+Lemma no_single_var : forall n sc hb ps, no_single (TVar n sc hb ps) <-> Forall no_single ps.
+Proof. intros; simpl. apply no_single_all. Qed.
 
 (* With the VisitUnionType that returns the sole member, SimplifyContainers never leaves (and removes
    every) one-member union. *)
@@ -43,6 +45,7 @@ Proof.
     destruct (forallb is_any (map V ps)); [exact I|]. apply (proj2 (no_single_gen _ _ _)). auto.
   - change (no_single (TTup k c (map V ps))). apply (proj2 (no_single_tup _ _ _)). auto.
   - change (no_single (TCall k c (map V ps))). apply (proj2 (no_single_call _ _ _)). auto.
+  - change (no_single (TVar n sc hb (map V ps))). apply (proj2 (no_single_var _ _ _ _)). auto.
 Qed.
 
 (* Without it: Union[List[Any], list] -> UnionType((list,)) *)
@@ -58,7 +61,7 @@ Qed.
 (* ================================================================== idempotence fails: witnesses *)
 (* deps: object, NoneType, int, typing.Sequence, list(Sequence) *)
 Definition w_deps : hier := [(1, []); (2, [1]); (8, [1]); (9, [1]); (10, [9])].
-Definition w_fn (ret : ty) : unit_ := mkUnit [] [] [mkFunc 0 0 [mkSig [] None None ret []]].
+Definition w_fn (ret : ty) : unit_ := mkUnit [] [] [mkFunc 0 0 [mkSig [] None None ret [] []]].
 Definition w_const (t : ty) : unit_ := mkUnit [mkConst 0 t] [] [].
 
 (* def f() -> Union[object, List[int]]: object becomes Any only after the unions were simplified *)
